@@ -66,8 +66,10 @@ def main():
         d = os.path.join(st.VERIF, 'benign', a.keep)
         os.makedirs(d, exist_ok=True)
         for f in ('patch.diff', 'notes.md', 'diffcheck.py'):
-            if os.path.exists(os.path.join(a.cand, f)):
-                shutil.copy(os.path.join(a.cand, f), os.path.join(d, f))
+            src = os.path.join(a.cand, f)
+            if os.path.exists(src) and os.path.realpath(src) != \
+                    os.path.realpath(os.path.join(d, f)):
+                shutil.copy(src, os.path.join(d, f))
         meta = {'kind': 'behaviour-preserving change (all properties hold)',
                 'origin': 'written by an independent sub-agent given the 20 '
                           'property texts, a theme and a scratch worktree',
